@@ -1097,6 +1097,20 @@ impl<'a> RepositoryUpdate<'a> {
             }
         }
 
+        // The deltas we are going to apply must form a contiguous chain.
+        for (idx, delta) in deltas.iter().enumerate() {
+            if
+                delta.serial().checked_sub(serial)
+                    != u64::try_from(idx).ok()
+            {
+                self.log.debug(format_args!(
+                    "Delta list is not contiguous at serial {}.",
+                    delta.serial()
+                ));
+                return Err(SnapshotReason::BadDeltaSet)
+            }
+        }
+
         if deltas.len() > self.collector.config.max_delta_count {
             self.log.debug(format_args!(
                 "Too many delta steps required ({})", deltas.len()
